@@ -45,6 +45,21 @@ type exprCase struct {
 }
 
 func replay(sub string, raw json.RawMessage) ([]h.Failure, error) {
+	if sub == "kinds" {
+		var c exprCase
+		if err := json.Unmarshal(raw, &c); err != nil {
+			return nil, err
+		}
+		out := h.Run(c.Src, h.Opts{})
+		want := "假"
+		if strings.Contains(c.Src, "/=") || strings.Contains(c.Src, "不为") {
+			want = "真"
+		}
+		if out.Kind != h.KValue || out.ValText != want {
+			return []h.Failure{{Sig: "kinds/plain-vs-other-kind", Msg: c.Src + ": " + out.Short()}}, nil
+		}
+		return nil, nil
+	}
 	if sub == "identity" {
 		var v inVal
 		if err := json.Unmarshal(raw, &v); err != nil {
@@ -78,6 +93,39 @@ func checkIdentity(v inVal) []h.Failure {
 		}
 	}
 	return nil
+}
+
+// a plain value and something that is not a plain value (an object, a method, a type) are
+// simply unequal, whichever of the two stands on the left
+func TestPlainAgainstOtherKinds(t *testing.T) {
+	others := []string{"物", "某法", "某型", "显示", "异常"}
+	plains := []string{"空", "0", "1.5", "“”", "“物”", "真", "假", "【】", "【1】", "【“a” = 1】"}
+	ops := map[string]string{"==": "假", "为": "假", "/=": "真", "不为": "真"}
+	n := 0
+	for _, o := range others {
+		for _, p := range plains {
+			for op, want := range ops {
+				for _, flip := range []bool{false, true} {
+					l, r := o, p
+					if flip {
+						l, r = p, o
+					}
+					src := "定义某型：\n    其值 = 0\n如何某法？\n    输出1\n令物 = （新建某型）\n输出" + l + " " + op + " " + r
+					out := h.Run(src, h.Opts{})
+					var fails []h.Failure
+					if out.Kind != h.KValue || out.ValText != want {
+						fails = []h.Failure{{Sig: "kinds/plain-vs-other-kind", Msg: fmt.Sprintf("%s %s %s must be %s (values of different kinds are simply unequal); got %s", l, op, r, want, out.Short())}}
+					}
+					n++
+					if len(fails) > 0 || n%97 == 1 {
+						h.R.Case(t, "kinds", src, exprCase{Src: src}, []string{"plain-value-against-other-kind"}, true, fails)
+					}
+				}
+			}
+		}
+	}
+	h.R.AddEvals(int64(n))
+	h.R.Exhaustive("kinds", fmt.Sprintf("%d comparisons: 5 non-plain values x 10 plain values x 4 operators x both orders", n))
 }
 
 func TestEqualityIgnoresIdentity(t *testing.T) {
